@@ -24,6 +24,10 @@ func init() {
 		Assumptions: []string{"buildReferrers and replaceAll visit exactly what Operands yields (checked: they call Operands)"},
 		Run:         runC02,
 		Mutants: []Mutant{
+			{Name: "jump-threading-into-phi-block-with-one-pred", File: "go/ir/blockopt.go", Rule: "R2.7", KeyPart: "jumpThreading::no-edit-once-a-phi-was-seen",
+				Old: "\tif c.hasPhi() {\n\t\treturn false // not sound without more effort\n\t}\n", New: "\tif c.hasPhi() && len(b.Preds) != 1 {\n\t\treturn false // not sound without more effort\n\t}\n"},
+			{Name: "fuse-blocks-with-phis", File: "go/ir/blockopt.go", Rule: "R2.7", KeyPart: "fuseBlocks::gives-up-on-phi-blocks",
+				Old: "\tif b.hasPhi() {\n\t\treturn false // not sound without further effort\n\t}\n", New: ""},
 			{Name: "switch-header-block-saved-before-tag", File: "go/ir/builder.go", Rule: "R2.6", KeyPart: "switchStmt::saved-block::b.expr(fn, s.Tag)",
 				Old: "\ttag := b.expr(fn, s.Tag)\n\t// Lowering the tag may open new blocks (a && b, a || b); the switch is\n\t// emitted in the block that is current afterwards.\n\tentry := fn.currentBlock\n", New: "\tentry := fn.currentBlock\n\ttag := b.expr(fn, s.Tag)\n"},
 			{Name: "typeswitch-header-block-saved-before-tag", File: "go/ir/builder.go", Rule: "R2.6", KeyPart: "typeSwitchStmt::saved-block",
@@ -826,5 +830,55 @@ func runC02(c *Ctx) {
 			c.Undecided("found only %d saved-and-restored current blocks in the builder", n)
 		}
 	})
+	// R2.7: the block optimisations run before lifting, when φ-nodes exist only
+	// where the builder put them (&&/||, go1.22 loop variables). Threading a
+	// jump into a φ-block, or fusing a φ-block into its predecessor, changes
+	// which value the φ selects (or leaves a φ in the middle of a block). Both
+	// optimisations must therefore give up — before any edit — when the block
+	// concerned has φ-nodes.
+	c.Rule("R2.7", func() { phiBlockGuardObligations(c, funcs) })
 	_ = token.NoPos
+}
+
+// phiBlockGuardObligations (shared by C02 R2.7 and C01 R1.6).
+func phiBlockGuardObligations(c *Ctx, funcs []*ssa.Function) {
+	isMutation := func(in ssa.Instruction) bool {
+		switch x := in.(type) {
+		case *ssa.Store:
+			return IsFieldOf("ir.BasicBlock", "Preds")(x.Addr) || IsFieldOf("ir.BasicBlock", "Succs")(x.Addr) || IsFieldOf("ir.BasicBlock", "Instrs")(x.Addr) ||
+				AddrFrom(x.Addr, IsFieldOf("ir.Function", "Blocks")) || AddrFrom(x.Addr, IsFieldOf("ir.BasicBlock", "Instrs"))
+		case *ssa.Call:
+			switch CalleeName(&x.Call) {
+			case irPkg + ".BasicBlock.replacePred", irPkg + ".BasicBlock.replaceSucc", irPkg + ".BasicBlock.removePred":
+				return true
+			}
+		}
+		return false
+	}
+	n := 0
+	for _, name := range []string{"jumpThreading", "fuseBlocks"} {
+		fn := c.Func("go/ir", name)
+		guards := CallsTo(fn, false, irPkg+".BasicBlock.hasPhi")
+		mutates := false
+		Instrs(fn, false, func(in ssa.Instruction) {
+			if isMutation(in) {
+				mutates = true
+			}
+		})
+		if !mutates {
+			c.Undecided("%s no longer edits the control-flow graph", name)
+		}
+		n++
+		c.Check(FuncKey(fn)+"::gives-up-on-phi-blocks", fn.Pos(), len(guards) > 0, "%s edits predecessor lists / splices blocks and must first test hasPhi() on the block concerned", name)
+		for _, g := range guards {
+			call := g.(*ssa.Call)
+			hasPhiTrue := CallTrueEdges(fn, func(x *ssa.Call) bool { return x == call })
+			// from the point where hasPhi() returned true, no edit may be reachable: search from the call, cutting the false edges
+			falseEdges := ComplementEdges(hasPhiTrue)
+			t, path := PathAvoiding(fn, call, isMutation, nil, falseEdges)
+			n++
+			c.Check(FuncKey(fn)+"::no-edit-once-a-phi-was-seen", call.Pos(), t == nil && len(hasPhiTrue) > 0, "after hasPhi() answered true for the block, %s must return without editing the graph (a φ selects its value by predecessor position; threading into or fusing a φ-block changes the selection or strands the φ mid-block); path to an edit: %s", name, PathString(fn, path))
+		}
+	}
+	_ = n
 }
